@@ -6,6 +6,7 @@ package symgo
 import (
 	"encoding/json"
 	"fmt"
+	"go/token"
 	"go/types"
 	"reflect"
 	"regexp"
@@ -1011,6 +1012,43 @@ func icptJSONUnmarshal(caller *frame, fn *ssa.Function, args []value) value {
 			res := i.jsonTranscode(blob.t, blob.v, pt.Elem())
 			store(pt.Elem(), cell, res)
 			return iface{}
+		}
+	}
+	if raw, ok := args[0].([]value); ok && len(raw) == 1 {
+		if sl, ok := raw[0].(symSlotsPayload); ok && target.t.String() != "*[]int32" {
+			// the symbolic delete-slots list decoded into another integer slice type: the decoder
+			// rejects an element that does not fit (negative into unsigned, out of range) with a
+			// type error, leaves that element zero and goes on
+			if pt, ok := target.t.Underlying().(*types.Pointer); ok {
+				if st, ok := pt.Elem().Underlying().(*types.Slice); ok {
+					if eb, ok := st.Elem().Underlying().(*types.Basic); ok && eb.Info()&types.IsInteger != 0 {
+						i32 := types.Typ[types.Int32]
+						bad := false
+						out := []value{}
+						for _, x := range sl.vals {
+							fits := true
+							if eb.Info()&types.IsUnsigned != 0 {
+								fits = i.truth(i.binop(token.GEQ, i32, x, int32(0)))
+							}
+							switch eb.Kind() {
+							case types.Int8, types.Uint8, types.Int16, types.Uint16:
+								panic(engineTrap{msg: "json.Unmarshal of the symbolic slot list into " + target.t.String()})
+							}
+							if !fits {
+								bad = true
+								out = append(out, zero(st.Elem()))
+								continue
+							}
+							out = append(out, i.conv(st.Elem(), i32, x))
+						}
+						*(target.v.(*value)) = out
+						if bad {
+							return i.newError("json: cannot unmarshal number into Go value of type " + st.Elem().String())
+						}
+						return iface{}
+					}
+				}
+			}
 		}
 	}
 	if target.t.String() == "*[]int32" {
